@@ -403,6 +403,7 @@ struct VecTarget
         install_simalloc();
         run.setup_bernoulli(bern_permille, bern_seed);
         keyspace = (uint32_t)std::max<int64_t>(1, p.knob("keyspace", 16));
+        g_cmp_style = (int)(p.knob("cmpstyle", 0) % 3);
         maxlen = (size_t)std::max<int64_t>(1, p.knob("maxlen", 48));
         size_t const z0 = ELEM_SIZES[(size_t)p.knob("zsel", 4) % N_ELEM_SIZES];
         size_t const cap0 = (size_t)p.knob("cap", 8);
@@ -558,6 +559,18 @@ struct VecTarget
         }
         case V_SETM:
         {
+            if (SA.passthrough && !is_buf && (o.a[1] % 5) == 0 && SA.fmode == SimAlloc::F_NONE)
+            { // an absurd request that the REAL default allocator refuses: failure must be reported and nothing may change
+                size_t const huge = ((size_t)1 << 57) / x.z;
+                uint64_t const rf0 = SA.real_failures;
+                c.site("a_vec_setm");
+                int const ret = (o.a[1] % 10) == 0 ? a_vec_setn(x.v, huge, nullptr) : a_vec_setm(x.v, huge);
+                if (SA.real_failures == rf0) break; // the host granted it (not expected); nothing to assert
+                c.st.add("probe.real_allocator_refusal_vec");
+                if (ret == 0) { c.fail("allocation-failure-not-reported", "a_vec_setm", "the default allocator refused %zu elements but the call reported success", huge); break; }
+                check(x, "a_vec_setm");
+                break;
+            }
             uint64_t const v = (uint64_t)(o.a[0] < 0 ? -o.a[0] : o.a[0]);
             size_t m = (size_t)(v % (maxlen + 24));
             std::string const name = nm("setm");
@@ -746,6 +759,7 @@ static inline void gen_vec_plan(Rng &r, Plan &p, bool is_buf, bool for_faults, i
     p.set("cap", (int64_t)r.below(20));
     p.set("heap", r.chance(1, 2));
     p.set("dtor_at_end", r.chance(1, 2));
+    p.set("cmpstyle", (int64_t)r.below(3));
     // swarm: each op kind enabled with probability 1/2, at least one producer and one consumer
     bool en[V__COUNT];
     for (int k = 0; k < V__COUNT; ++k) en[k] = r.chance(1, 2);
